@@ -440,8 +440,12 @@ func checkStep(e *Edge, pkg *reg.Pkg, x *conc.Ctx, enc, prop string, root ygot.G
 		return
 	}
 	if hasUnsetKeyLeaf(&e.Pre, x.C) {
-		res.Count("unspecified_unset_key_leaf", 1)
-		return
+		if e.Act.Op != "delete" {
+			res.Count("unspecified_unset_key_leaf", 1)
+			return
+		}
+		// DeleteNode finds an entry whose key leaf is unset by its map key: specified
+		res.Count("delete_with_unset_key_leaf", 1)
 	}
 	switch e.Act.Op {
 	case "set", "setll":
